@@ -28,6 +28,7 @@
      E4  live at CallEnd = live at CallBegin (nothing leaked), on every path
      W   inside a secret-processing call a block is freed only if wiped as a whole
          (blocks released through realloc: only if clean)
+     WEnd  a block left behind by a secret-processing call (leaked) is at least wiped
      NoBadFree   no double free, no free of an unknown block                             *)
 EXTENDS Naturals, FiniteSets, TLC
 
@@ -126,6 +127,8 @@ CallEnd(e) ==
 E3 == (~inCall /\ failed) => err # OK
 E4 == ~inCall => DOMAIN live = live0
 W == (fn \in SecretFuncs) => unwiped = {}
+\* a block that a secret-processing call leaves behind (it leaked) must not be left unwiped either
+WEnd == (~inCall /\ fn \in SecretFuncs) => \A b \in DOMAIN live \ live0 : live[b].wiped
 NoBadFree == ~badFree
 
 \* an injected failure really is the failAt-th attempt, and only that one (binding sanity)
